@@ -20,7 +20,7 @@ use crate::drive::chip127x::{
     Kind, IRQ_PAYLOAD_CRC_ERROR, IRQ_RX_DONE as IRQ127_RX_DONE, IRQ_RX_TIMEOUT, IRQ_VALID_HEADER, REG_FIFO_RX_CURRENT_ADDR, REG_IRQ_FLAGS, REG_RX_NB_BYTES,
 };
 use crate::drive::rig::{self, C126, C127};
-use crate::drive::{block_on, panic_failure, Delay, Iv};
+use crate::drive::{block_on, panic_failure, with_xfer_budget, Delay, Iv, XFER_HANG_MSG};
 use lora_modulation::{Bandwidth, BaseBandModulationParams, CodingRate, SpreadingFactor};
 use lora_phy::lorawan_radio::LorawanRadio;
 use lora_phy::mod_params::{ModulationParams, RadioError};
@@ -365,19 +365,36 @@ pub fn run_case(rig: &mut dyn Rig, c: &Case) -> Result<&'static str, Failure> {
         // caller buffers larger than any LoRa packet
         let mut store = [CANARY; BIG];
         let size = c.buf.min(BIG);
-        let r = catch(|| rig.fetch(c, &mut store[..size]));
+        let r = catch(|| with_xfer_budget(XFER_BUDGET_PER_FETCH, || rig.fetch(c, &mut store[..size])));
         return match r {
+            Err(p) if p.contains(XFER_HANG_MSG) => Err(does_not_return(c)),
             Err(p) => Err(panic_failure(c.json(), &p)),
             Ok(f) => judge_fetch(&Expect { case: &|| c.json(), chip: CHIPS[c.chip], want: c.expected_len(), off: c.off, size, implicit: c.implicit, fp_suffix: "" }, f, &store),
         };
     }
     let mut store = [CANARY; 256];
     let size = c.buf.min(256);
-    let r = catch(|| rig.fetch(c, &mut store[..size]));
+    let r = catch(|| with_xfer_budget(XFER_BUDGET_PER_FETCH, || rig.fetch(c, &mut store[..size])));
     match r {
+        Err(p) if p.contains(XFER_HANG_MSG) => Err(does_not_return(c)),
         Err(p) => Err(panic_failure(c.json(), &p)),
-        Ok(f) => judge_fetch(&Expect { case: &|| c.json(), chip: CHIPS[c.chip], want: c.expected_len(), off: c.off, size, implicit: c.implicit, fp_suffix: "" }, f, &store),
+        Ok(f) => {
+            // the adapter hands the MAC exactly the bytes of a packet the chip reports as received: a clean
+            // reception (RxDone, no error status, no CRC error) that fits the caller's buffer may not be
+            // reported as "nothing heard"
+            if matches!(f, Fetch::NoPacket) && !c.error_status() && c.expected_len() <= size {
+                return Err(Failure::new("rx-fetch", c.json(), format!("the chip reported a clean reception of {} bytes that fit the {size}-byte buffer; the adapter reported that nothing was received", c.expected_len())).with_fp(format!("rx-fetch/packet-not-handed-over/{}", CHIPS[c.chip])));
+            }
+            judge_fetch(&Expect { case: &|| c.json(), chip: CHIPS[c.chip], want: c.expected_len(), off: c.off, size, implicit: c.implicit, fp_suffix: "" }, f, &store)
+        }
     }
+}
+
+/// SPI exchanges one fetch may take (a reception and its fetch need a few dozen)
+const XFER_BUDGET_PER_FETCH: u32 = 5_000;
+
+fn does_not_return(c: &Case) -> Failure {
+    Failure::new("rx-fetch", c.json(), "the call kept exchanging with the chip (more than 5000 SPI transactions) and did not return: neither a packet nor an error".to_string()).with_fp(format!("rx-fetch/does-not-return/{}", CHIPS[c.chip]))
 }
 
 /// what a fetch has to deliver: the oracle of the property statement, independent of how the fetch was reached
